@@ -7,6 +7,8 @@ from gen import constants
 ID = "C14"
 DRIVER = "drv_codec"
 HARNESS = "h_codec"
+QUICK_LEVEL = "thorough"      # the larger case set costs only seconds
+THOROUGH_SEEDS = 6
 GEN = [constants.gen]
 TIE = ['Ufw.Tie.Varint']
 RULE = ("values: 0, 2^(7k)-1, 2^(7k), 2^(7k)+1 for every k, all single-bit values, type extremes and seeded random values, "
